@@ -255,21 +255,25 @@ func (o *object) construct(argumentList []Value) Value {
 }
 
 // 15.3.5.3.
-func (o *object) hasInstance(of Value) bool {
+func (o *object) hasInstance(of Value, position ...at) bool {
+	where := make([]interface{}, len(position))
+	for i, p := range position {
+		where[i] = p
+	}
 	if !o.isCall() {
 		// We should not have a hasInstance method
-		panic(o.runtime.panicTypeError("Object.hasInstance not callable"))
+		panic(o.runtime.panicTypeError(append([]interface{}{"Object.hasInstance not callable"}, where...)...))
 	}
 	if bound, ok := o.value.(bindFunctionObject); ok {
 		// 15.3.4.5.3: a bound function answers with its target's [[HasInstance]].
-		return bound.target.hasInstance(of)
+		return bound.target.hasInstance(of, position...)
 	}
 	if !of.IsObject() {
 		return false
 	}
 	prototype := o.get("prototype")
 	if !prototype.IsObject() {
-		panic(o.runtime.panicTypeError("Object.hasInstance prototype %q is not an object", prototype))
+		panic(o.runtime.panicTypeError(append([]interface{}{"Object.hasInstance prototype %q is not an object", prototype}, where...)...))
 	}
 	prototypeObject := prototype.object()
 
